@@ -23,4 +23,4 @@ What to produce:
 3. Verify all of this yourself: (a) unmodified tree: tests pass, demo exits 0; (b) modified tree: it compiles, all 143 tests pass, demo exits non-zero.
 4. Save into {wt}-out/: patch.diff (output of `git -C {wt} diff`), demo.c, and notes.txt explaining in a few lines: what the change is, which inputs/histories make it manifest, why the existing tests do not notice, and the exact commands you ran with their results.
 
-Leave your change applied in the worktree when you finish. Do not commit. Keep build output only inside {wt}/_build. Reply with a short summary (what you changed, how it manifests, verification results).""")
+Leave your change applied in the worktree when you finish. Do not commit. Do NOT use `git stash` (the stash is shared by all worktrees of the repository and other jobs run beside you): to test the unmodified tree use `git diff > {wt}-out/patch.diff ; git apply -R {wt}-out/patch.diff` and `git apply {wt}-out/patch.diff` to get back. Keep build output only inside {wt}/_build. Reply with a short summary (what you changed, how it manifests, verification results).""")
